@@ -123,6 +123,60 @@ def run(prop, tier, seed, known):
                     if p0_ is not None and p1_ is not None and abs(p0_ - p1_) > 1e-9:
                         fails.append('beat P-score changes under a common time shift of %s: %r vs %r (period %s, estimate %s s behind the reference)' % (dd_, p0_, p1_, period, lag_))
                         break
+                # C04: continuity (CMLc, CMLt, AMLc, AMLt) per Davies et al.: an estimated beat is correct when its nearest annotation is still
+                # unclaimed, lies within phase_thr inter-annotation intervals and the local inter-beat interval deviates by less than period_thr;
+                # intervals are taken backwards, forwards for the first beat or the first annotation; scores are the longest correct run / the
+                # number of correct beats over max(#annotations, #beats), for the annotation as given and the best of its five metrical variations
+                def cont_one(ann, es, pth, qth):
+                    used, okl = set(), []
+                    for m_, g_ in enumerate(es):
+                        dist_ = [abs(g_ - a_) for a_ in ann]
+                        j_ = dist_.index(min(dist_))
+                        ok_ = False
+                        if j_ not in used:
+                            if m_ == 0 or j_ == 0:
+                                aiv = ann[j_ + 1] - ann[j_] if j_ + 1 < len(ann) else ann[j_] - ann[j_ - 1]
+                                eiv = es[m_ + 1] - es[m_] if m_ + 1 < len(es) else es[m_] - es[m_ - 1]
+                            else:
+                                aiv, eiv = ann[j_] - ann[j_ - 1], es[m_] - es[m_ - 1]
+                            ok_ = dist_[j_] / aiv < pth and abs(1.0 - eiv / aiv) < qth
+                            if ok_:
+                                used.add(j_)
+                        okl.append(ok_)
+                    longest = run_ = 0
+                    for ok_ in okl:
+                        run_ = run_ + 1 if ok_ else 0
+                        longest = max(longest, run_)
+                    den_ = float(max(len(ann), len(es)))
+                    return longest / den_, sum(okl) / den_
+                for es_ in (est.tolist(), [ref[0] - period] + ref.tolist(), [ref[0] - 2 * period, ref[0] - period] + (ref + 0.03125).tolist()):
+                    if len(es_) < 2 or len(ref) < 4 or len(set(es_)) != len(es_):
+                        continue
+                    pth_, qth_ = rng.choice([(0.175, 0.175), (0.25, 0.125)])
+                    gc_ = guard('beat.continuity', lambda: beat.continuity(ref, np.array(es_), continuity_phase_threshold=pth_, continuity_period_threshold=qth_))
+                    if gc_ is not None:
+                        rl0_ = ref.tolist()
+                        mids0_ = [(a_ + b_) / 2 for a_, b_ in zip(rl0_, rl0_[1:])]
+                        vars_ = [rl0_, mids0_, sorted(rl0_ + mids0_), rl0_[::2], rl0_[1::2]]
+                        res_ = [cont_one(v_, es_, pth_, qth_) for v_ in vars_]
+                        wc_ = (res_[0][0], res_[0][1], max(r_[0] for r_ in res_), max(r_[1] for r_ in res_))
+                        if any(abs(float(a_) - b_) > 1e-9 for a_, b_ in zip(gc_, wc_)):
+                            fails.append('beat.continuity(thresholds %s, %s) = %s, its definition gives %s (reference from %s every %s, estimate %s)'
+                                         % (pth_, qth_, tuple(float(x_) for x_ in gc_), wc_, ref[0], period, es_))
+                # C07: a wider P-score window (p_score_threshold) never lowers the P-score, also for a sparse reference
+                for rr_, ee_ in ((ref, est), (ref[[0, -1]], ref[[0, -1]].copy()), (ref[[0, len(ref) // 2, -1]], ref[[0, len(ref) // 2, -1]] + 0.0625)):
+                    if len(rr_) < 2 or len(ee_) < 2:
+                        continue
+                    prev_p = None
+                    for thr_ in (0.1, 0.2, 0.4, 0.6, 0.8, 1.0):
+                        pv_ = guard('beat.p_score(p_score_threshold=%s)' % thr_, lambda: beat.p_score(rr_, ee_, p_score_threshold=thr_))
+                        if pv_ is None:
+                            break
+                        if prev_p is not None and pv_ < prev_p - 1e-12:
+                            fails.append('nested: a wider P-score window lowers the P-score: %r at the narrower threshold, %r at %s (reference %s, estimate %s)'
+                                         % (prev_p, pv_, thr_, rr_.tolist(), np.asarray(ee_).tolist()))
+                            break
+                        prev_p = pv_
                 # C04: Cemgil accuracy per its definition (Gaussian error of the closest estimate to every reference beat, normalised by the mean
                 # number of beats), and its best value over the five metrical variations built here independently
                 import math
